@@ -501,6 +501,60 @@ Qed.
 Theorem nonpositive_interval_panics T s : ko_result (ka_env 0 T s) = KA_panic.
 Proof. reflexivity. Qed.
 
+(* ---------- which duration is the interval and which the timeout ---------- *)
+(* The reconnecting client's keep-alive pings every PingInterval and allows Timeout for each
+   answer: a peer that answers every ping within Timeout (however much longer than PingInterval
+   that is) is never dropped, for any number of pings; ping j is not sent before
+   j*PingInterval, the first one exactly then; a peer that needs Timeout or longer is reported. *)
+Theorem reconnect_interval_then_timeout o ds : 0 < ro_ping_interval o ->
+  let I := ro_ping_interval o in let T := ro_timeout o in
+  rc_keepalive_peer o (map Some ds) = Some (keepalive I T (map (peer_outcome T) (map Some ds))) /\
+  (Forall (fun d => d < T) ds ->
+     forall out, rc_keepalive_peer o (map Some ds) = Some out ->
+     ko_result out = KA_running /\ pings out = length ds /\
+     (forall j t, nth_error (ko_starts out) j = Some t -> N.of_nat (S j) * I <= t) /\
+     (ds <> [] -> nth_error (ko_starts out) 0 = Some I)) /\
+  (forall pre d post, Forall (fun d => d < T) pre -> T <= d ->
+     forall out, rc_keepalive_peer o (map Some (pre ++ d :: post)) = Some out ->
+     ko_result out = KA_returned EPingTimeout /\ pings out = S (length pre)).
+Proof.
+  intros HI. cbn zeta. unfold rc_keepalive_peer, rc_keepalive.
+  destruct (0 <? ro_ping_interval o) eqn:E; [|lia]. split; [reflexivity|]. split.
+  - intros Hds out [= <-].
+    assert (Hm : map (peer_outcome (ro_timeout o)) (map Some ds) = answered ds).
+    { induction Hds as [|d ds Hd Hds IH]; cbn [map answered]; [reflexivity|].
+      fold (answered ds). rewrite IH. unfold peer_outcome. destruct (d <? ro_timeout o) eqn:Ed; [reflexivity | lia]. }
+    rewrite Hm. destruct (never_returns_while_answered (ro_ping_interval o) (ro_timeout o) ds HI) as (H1 & H2).
+    repeat split; [exact H1 | exact H2 | |].
+    + intros j t. unfold keepalive. apply no_ping_before_its_tick. exact HI.
+    + intros Hne. destruct ds as [|d ds]; [contradiction|].
+      unfold keepalive, ka_env. destruct (ro_ping_interval o =? 0) eqn:E0; [lia|].
+      cbn [answered map env_of ka_loop ping_run pe_beh pe_before pe_during po_ret]. unfold ko_starts.
+      cbn [ko_push ko_pings map fst nth_error]. f_equal. lia.
+  - intros pre d post Hpre Hd out [= <-].
+    assert (Hm : map (peer_outcome (ro_timeout o)) (map Some (pre ++ d :: post))
+                 = answered pre ++ Never :: map (peer_outcome (ro_timeout o)) (map Some post)).
+    { rewrite !map_app. cbn [map]. f_equal.
+      - induction Hpre as [|x pre Hx Hpre IH]; cbn [map answered]; [reflexivity|].
+        fold (answered pre). rewrite IH. unfold peer_outcome. destruct (x <? ro_timeout o) eqn:Ex; [reflexivity | lia].
+      - unfold peer_outcome at 1. destruct (d <? ro_timeout o) eqn:Ed; [lia | reflexivity]. }
+    rewrite Hm. apply timeout_reported. exact HI.
+Qed.
+
+(* the defaults (reconnclient.go:70-75) *)
+Lemma rc_effective_defaults ka : rc_effective (mk_ro 0 0) ka = mk_ro ka ka.
+Proof. unfold rc_effective. cbn. destruct (ka =? 0) eqn:E; [apply N.eqb_eq in E; subst; reflexivity | reflexivity]. Qed.
+
+(* non-vacuity, and what the argument order excludes: interval 30, timeout 2000, a peer that
+   answers after 200: kept; with the two durations swapped it is dropped at its first ping,
+   which moreover goes out at 2000 instead of 30 *)
+Example ex_slow_peer_kept :
+  option_map ko_result (rc_keepalive_peer (mk_ro 30 2000) (map Some [200; 200; 200])) = Some KA_running /\
+  option_map ko_starts (rc_keepalive_peer (mk_ro 30 2000) (map Some [200; 200; 200])) = Some [30; 230; 430] /\
+  option_map ko_result (rc_keepalive_peer (mk_ro 2000 30) (map Some [200; 200; 200])) = Some (KA_returned EPingTimeout) /\
+  option_map ko_starts (rc_keepalive_peer (mk_ro 2000 30) (map Some [200; 200; 200])) = Some [2000].
+Proof. vm_compute. repeat split; reflexivity. Qed.
+
 (* ---------- the caller's Connect context and the keep-alive context ---------- *)
 Lemma conn_script_background cc peer : forall j, conn_script_from CtxBackground cc j peer = map env_of peer.
 Proof. induction peer as [|o r IH]; intros j; cbn [conn_script_from map]; [reflexivity | rewrite IH; reflexivity]. Qed.
